@@ -294,6 +294,7 @@ func (r *Run) Finish() {
 	if AtExit != nil {
 		AtExit()
 	}
+	cleanScratch()
 	if distinct < 2 && nviol == 0 {
 		fmt.Fprintln(os.Stderr, "harness: fewer than 2 distinct outcomes observed — exploration was vacuous")
 		os.Exit(3)
@@ -425,7 +426,26 @@ func ScratchDir(tag string) string {
 	if err != nil {
 		panic(err)
 	}
+	scratchMu.Lock()
+	scratchDirs = append(scratchDirs, d)
+	scratchMu.Unlock()
 	return d
+}
+
+var (
+	scratchMu   sync.Mutex
+	scratchDirs []string
+)
+
+// cleanScratch removes whatever scratch directories are left when the run ends (workers that were
+// still busy when the run finished early never reach their own deferred removal).
+func cleanScratch() {
+	scratchMu.Lock()
+	defer scratchMu.Unlock()
+	for _, d := range scratchDirs {
+		os.RemoveAll(d)
+	}
+	scratchDirs = nil
 }
 
 // Main is the entry point of a per-property check binary.
